@@ -451,6 +451,17 @@ var envClock time.Time
 
 func SetProcessClock(t time.Time) { envClock = t }
 
+// A process without a world (the CLI child of the C20 harness) reads its wall
+// clock from VERIF_SIM_CLOCK (unix nanoseconds) when that is set.
+func init() {
+	if v := os.Getenv("VERIF_SIM_CLOCK"); v != "" {
+		var n int64
+		if _, err := fmt.Sscan(v, &n); err == nil {
+			envClock = time.Unix(0, n)
+		}
+	}
+}
+
 // SetNow pins the simulated clock to t.
 func SetNow(t time.Time) {
 	if w := world; w != nil {
